@@ -31,8 +31,17 @@ def setup() -> str:
     import pyjelly.serialize.streams as _s  # noqa: PLC0415, F401
 
     f2 = os.path.realpath(_s.__file__ or "")
-    if not f2.startswith(root + os.sep) or not f2.endswith(".py"):
-        raise RuntimeError(f"pyjelly.serialize.streams resolved to {f2}")
+    compiled = bool(os.environ.get("VERIF_COMPILED"))
+    # ordinary mode: the interpreted working tree, never a compiled module; compiled mode (a mypyc build of the
+    # working tree, see simkit/mypyc_build.py): the compiled module and its group library, from the build directory
+    if not f2.startswith(root + os.sep) or f2.endswith(".py") == compiled:
+        raise RuntimeError(f"pyjelly.serialize.streams resolved to {f2} (compiled mode: {compiled})")
+    if compiled:
+        import importlib.machinery  # noqa: PLC0415
+
+        group = [m for n, m in sys.modules.items() if n.endswith("__mypyc")]
+        if not group or not all(os.path.realpath(m.__file__).startswith(root + os.sep) for m in group):
+            raise RuntimeError(f"mypyc group library not loaded from {root}: {[m.__file__ for m in group]}")
     _register_rdflib()
     import logging  # noqa: PLC0415
     import warnings  # noqa: PLC0415
